@@ -112,6 +112,9 @@ func c17Gen(g *Gen) {
 	emit("probe", 2, 3, []c17Op{{1, 0, 0, true}, {2, 0, 1, true}, {1, 1, 0, true}, {2, 0, 1, true}, {4, 0, 0, true}, {2, 1, 1, true}})
 	emit("probe", 2, 3, []c17Op{{1, 0, 3, true}, {1, 1, 2, true}, {2, 1, 1, true}, {4, 1, 0, true}})
 
+	// H: recovery of the pipelines of queued chunks by the real byKeySet orchestrator (kind 3)
+	c17GenRecover(g)
+
 	// A: the bound named in the property: two connections {open, accept, tick, close}, one reload of each kind,
 	// every interleaving of the API calls
 	for kind := 0; kind <= 2; kind++ {
